@@ -120,7 +120,9 @@ Fixpoint dcache_trace (ops : list sx) (d : dcache) (acc : list sx) : list sx :=
   match ops with
   | [] => rev acc
   | op :: t =>
-      if dz (dnth op 0) =? 2 then          (* reset() *)
+      if dz (dnth op 0) =? 3 then          (* inspection: no effect *)
+        dcache_trace t d (Lx [Lx []; Zx 0; sx_dcache d; sx_zmap_sorted (lower d)] :: acc)
+      else if dz (dnth op 0) =? 2 then          (* reset() *)
         let d' := dc_reset d in
         dcache_trace t d' (Lx [Lx []; Zx 0; sx_dcache d'; sx_zmap_sorted (lower d')] :: acc)
       else if dz (dnth op 0) =? 0 then
@@ -129,6 +131,20 @@ Fixpoint dcache_trace (ops : list sx) (d : dcache) (acc : list sx) : list sx :=
       else
         let '(e, d', p) := dc_write d (dz (dnth op 1)) (dz (dnth op 2)) (dz (dnth op 3)) (dbool (dnth op 4)) in
         dcache_trace t d' (Lx [sx_opt sx_err e; Zx p; sx_dcache d'; sx_zmap_sorted (lower d')] :: acc)
+  end.
+
+(* instruction-cache histories: ops (0 addr) fetch | (1 k) reset() then write program k *)
+Fixpoint icache_trace (progs : list (list instr)) (ops : list sx) (m : imem) (acc : list sx) : list sx :=
+  match ops with
+  | [] => rev acc
+  | op :: t =>
+      if dz (dnth op 0) =? 0 then
+        let '(oi, m', p) := im_read m (dz (dnth op 1)) in
+        icache_trace progs t m' (Lx [sx_opt sx_instr oi; Zx p; sx_icache_stats (icc m')] :: acc)
+      else
+        let m0 := im_reset m in
+        let m' := {| prog := nth (Z.to_nat (dz (dnth op 1))) progs []; icc := icc m0 |} in
+        icache_trace progs t m' (Lx [Lx []; Zx 0; sx_icache_stats (icc m')] :: acc)
   end.
 
 (* RISC-V display tables of a state *)
@@ -169,7 +185,7 @@ Definition dispatch (req : sx) : sx :=
     (* assemble into a fresh state with the given cache configurations *)
     let s0 := init_st [] (dmemsys (dnth req 1) []) (dicache (dnth req 2)) in
     let '(s1, e, img) := rv_load s0 (map drline (dl (dnth req 3))) in
-    Lx [sx_opt sx_perr e; sx_opt sx_image img; sx_zmap_sorted (ms_lower (ms s1))]
+    Lx [sx_opt sx_perr e; sx_opt sx_image img; sx_zmap_sorted (ms_lower (ms s1)); sx_st s1]
   else if op =? 62 then
     let i := dinstr (dnth req 1) in
     let a := dz (dnth req 2) in
@@ -182,6 +198,9 @@ Definition dispatch (req : sx) : sx :=
         | BStr k => Lx [Zx 0; sx_instr (if k =? 0 then IEcall else IEbreak)]
         | BOther => Lx [Zx 2]
         end]
+  else if op =? 51 then
+    let progs := map (fun p => map dinstr (dl p)) (dl (dnth req 2)) in
+    Lx (icache_trace progs (dl (dnth req 3)) {| prog := nth 0 progs []; icc := dicache (dnth req 1) |} [])
   else if op =? 50 then
     match dmemsys (dnth req 1) (dpairs (dnth req 2)) with
     | MCache d => Lx (dcache_trace (dl (dnth req 3)) d [])
